@@ -226,7 +226,7 @@ def uniq(sequence: ArrayT, key: object = None) -> list[object]:
         for obj in sequence:
             try:
                 item = obj[key]
-            except KeyError:
+            except (KeyError, IndexError):
                 item = MISSING
             except TypeError as err:
                 raise FilterArgumentError(
@@ -247,7 +247,7 @@ def compact(sequence: ArrayT, key: object = None) -> list[object]:
     """Return a copy of _sequence_ with any nil values removed."""
     if key is not None:
         try:
-            return [itm for itm in sequence if itm[key] is not None]
+            return [itm for itm in sequence if _getitem_or_none(itm, key) is not None]
         except TypeError as err:
             raise FilterArgumentError(
                 f"can't read property '{key}'", token=None
@@ -269,6 +269,14 @@ def sum_(sequence: ArrayT, key: object = None) -> Union[float, int, Decimal]:
     if isinstance(rv, Decimal):
         return float(rv)
     return rv
+
+
+def _getitem_or_none(obj: Any, key: object) -> Any:
+    """Return obj[key], or None if obj has no such key or index."""
+    try:
+        return obj[key]
+    except (KeyError, IndexError):
+        return None
 
 
 def _str_if_not(val: object) -> str:
